@@ -13,6 +13,7 @@ import (
 	"time"
 
 	v120 "github.com/chain4energy/c4e-chain/app/upgrades/v120"
+	distkeeper "github.com/chain4energy/c4e-chain/x/cfedistributor/keeper"
 	disttypes "github.com/chain4energy/c4e-chain/x/cfedistributor/types"
 	mintertypes "github.com/chain4energy/c4e-chain/x/cfeminter/types"
 	vv2 "github.com/chain4energy/c4e-chain/x/cfevesting/migrations/v2"
@@ -408,13 +409,49 @@ func toLegacyLayout(c *kernel.Chain, zeroExpAmount bool, upperOwnerKey bool) (le
 	ctx.KVStore(c.App.GetKey(disttypes.StoreKey)).Delete(disttypes.ParamsKey)
 	// the previous binary kept the state of an account under "<type>-<id as written>"
 	dstore := prefix.NewStore(ctx.KVStore(c.App.GetKey(disttypes.StoreKey)), disttypes.StateKeyPrefix)
+	spellings := map[string][]string{} // canonical address -> the spellings the configuration uses
+	noteSpelling := func(a disttypes.Account) {
+		if a.Type != disttypes.BaseAccount {
+			return
+		}
+		k := canonBaseID(a.Id)
+		for _, x := range spellings[k] {
+			if x == a.Id {
+				return
+			}
+		}
+		spellings[k] = append(spellings[k], a.Id)
+	}
+	for _, sd := range legacyDist.SubDistributors {
+		for _, src := range sd.Sources {
+			noteSpelling(*src)
+		}
+		noteSpelling(sd.Destinations.PrimaryShare)
+		for _, sh := range sd.Destinations.Shares {
+			noteSpelling(sh.Destination)
+		}
+	}
 	for _, st := range c.App.CfedistributorKeeper.GetAllStates(ctx) {
 		if st.Account != nil && st.Account.Id != "" && st.Account.Type != "" {
 			st := st
-			oldKey := st.Account.Type + "-" + st.Account.Id
-			if oldKey != st.GetStateKey() {
-				dstore.Delete([]byte(st.GetStateKey()))
-				dstore.Set([]byte(oldKey), kernel.Enc().Marshaler.MustMarshal(&st))
+			dstore.Delete([]byte(st.GetStateKey()))
+			ids := []string{st.Account.Id}
+			if st.Account.Type == disttypes.BaseAccount && len(spellings[canonBaseID(st.Account.Id)]) > 1 {
+				// the previous binary kept one state per spelling: what is booked for the account is spread over them
+				ids = spellings[canonBaseID(st.Account.Id)]
+			}
+			rest := st.Remains
+			for i, id := range ids {
+				part := rest
+				if i < len(ids)-1 {
+					part = sdk.NewDecCoins()
+					for _, dc := range rest {
+						part = part.Add(sdk.NewDecCoinFromDec(dc.Denom, dc.Amount.QuoInt64(2)))
+					}
+					rest = rest.Sub(part)
+				}
+				one := disttypes.State{Account: &disttypes.Account{Id: id, Type: st.Account.Type}, Burn: st.Burn, Remains: part}
+				dstore.Set([]byte(st.Account.Type+"-"+id), kernel.Enc().Marshaler.MustMarshal(&one))
 			}
 		}
 	}
@@ -425,6 +462,58 @@ func toLegacyLayout(c *kernel.Chain, zeroExpAmount bool, upperOwnerKey bool) (le
 	c.App.UpgradeKeeper.SetModuleVersionMap(ctx, vm)
 	prefix.NewStore(ctx.KVStore(c.App.GetKey(upgradetypes.StoreKey)), []byte{upgradetypes.VersionMapByte}).Delete([]byte("interchainaccounts"))
 	return
+}
+
+// c16DistMigrationBooks runs the real cfedistributor 2->3 migration on a branch of the pre-upgrade store (discarded
+// afterwards) and compares what is booked per account before and after it: the migration may move states, it may not
+// change what anybody is owed (C03: nothing lost, nothing counted twice).
+func c16DistMigrationBooks(r *kernel.Run, o *Outcome) {
+	if pi := kernel.Catch("distributor store migration on a branch", func() {
+		cctx, _ := r.Chain.Ctx().CacheContext()
+		k := r.Chain.App.CfedistributorKeeper
+		group := func(states []disttypes.State) (map[string]sdk.DecCoins, map[string]int) {
+			sums, n := map[string]sdk.DecCoins{}, map[string]int{}
+			for _, st := range states {
+				key := stateKey(st)
+				sums[key] = sums[key].Add(st.Remains...)
+				n[key]++
+			}
+			return sums, n
+		}
+		pre, _ := group(k.GetAllStates(cctx))
+		if err := distkeeper.NewMigrator(k, r.Chain.App.GetSubspace(disttypes.ModuleName)).Migrate2to3(cctx); err != nil {
+			return // a refused migration halts the upgrade block: decided there
+		}
+		post, n := group(k.GetAllStates(cctx))
+		o.Evals++
+		for _, key := range kernel.SortedKeys(boolKeys(pre, post)) {
+			if !pre[key].IsEqual(post[key]) {
+				o.Violations = append(o.Violations, &kernel.Violation{Property: "C03", Check: "migration-keeps-books", Signature: "store-migration-changes-what-is-booked", Block: 0, TxIndex: -1,
+					Message: fmt.Sprintf("the cfedistributor 2->3 store migration turns the %s booked for %s into %s", pre[key], key, post[key])})
+				return
+			}
+			if n[key] > 1 {
+				o.Violations = append(o.Violations, &kernel.Violation{Property: "C03", Check: "migration-keeps-books", Signature: "store-migration-leaves-two-states-for-one-account", Block: 0, TxIndex: -1,
+					Message: fmt.Sprintf("after the cfedistributor 2->3 store migration %s has %d states", key, n[key])})
+				return
+			}
+		}
+		if len(pre) != len(k.GetAllStates(r.Chain.Ctx())) {
+			o.Stats.Inc("probe.pre_upgrade_store_with_one_account_in_two_states")
+		}
+	}); pi != nil {
+		_ = pi
+	}
+}
+
+func boolKeys(ms ...map[string]sdk.DecCoins) map[string]bool {
+	out := map[string]bool{}
+	for _, m := range ms {
+		for k := range m {
+			out[k] = true
+		}
+	}
+	return out
 }
 
 type c16Snap struct {
@@ -477,6 +566,9 @@ func c16Replay(tr *kernel.Trace) *Outcome {
 				s0.vtypes[vt.Name] = true
 			}
 			legacyMinter, legacyDist, prepErr = toLegacyLayout(r.Chain, extra.ZeroExpAmount, extra.UpperOwnerKey)
+			if prepErr == nil {
+				c16DistMigrationBooks(r, o)
+			}
 			if prepErr == nil {
 				prepErr = r.Chain.App.UpgradeKeeper.ScheduleUpgrade(r.Chain.Ctx(), upgradetypes.Plan{Name: v120.UpgradeName, Height: r.Chain.Header.Height + 1})
 			}
